@@ -42,6 +42,10 @@ Derived(it, v, st) == [it EXCEPT !.v = v, !.st = st]
 Fresh(it, v) == Derived(it, v, "fresh")
 Unk(it, v) == Derived(it, v, "unk")
 
+\* reduce / foreach destructure their source outside an expbegin/expend pair: in path mode the index steps of an array or object
+\* PATTERN are pushed on the path stack, so the value pathIntact compares with is no longer the one the model tracks
+PatternTop(pat, it) == IF "Name" \in DOMAIN pat THEN it ELSE [it EXCEPT !.pv = [t |-> "opaque"]]
+
 Opq(v) == v.t = "opaque"
 RECURSIVE DeepOpq(_)
 DeepOpq(v) == CASE v.t = "opaque" -> TRUE
@@ -284,7 +288,7 @@ Cont(it, K, S, f) ==
          LET d == Destructure(fr.node.Pattern, it.v, OrgOf(it)) IN
          IF d.k = "oom" THEN Raise(OOM, S) ELSE IF d.k = "err" THEN Raise(ErrV(Opaque), S)
          ELSE LET st == SGet(S, fr.c)
-                  inp == IF it.m = "v" THEN st ELSE Derived(it, st.v, IF IsContainer(st.v) THEN "unk" ELSE "fresh")
+                  inp == IF it.m = "v" THEN st ELSE PatternTop(fr.node.Pattern, Derived(it, st.v, IF IsContainer(st.v) THEN "unk" ELSE "fresh"))
               IN Run(fr.node.Update, inp, fr.env \o d.b, <<[k |-> "red3", c |-> fr.c]>>, S, f)
     [] fr.k = "red3" -> Done(SSet(S, fr.c, it))
     [] fr.k = "fe1" ->         \* an initial value of foreach
@@ -295,7 +299,7 @@ Cont(it, K, S, f) ==
          LET d == Destructure(fr.node.Pattern, it.v, OrgOf(it)) IN
          IF d.k = "oom" THEN Raise(OOM, S) ELSE IF d.k = "err" THEN Raise(ErrV(Opaque), S)
          ELSE LET st == SGet(S, fr.c)
-                  inp == IF it.m = "v" THEN st ELSE Derived(it, st.v, IF IsContainer(st.v) THEN "unk" ELSE "fresh")
+                  inp == IF it.m = "v" THEN st ELSE PatternTop(fr.node.Pattern, Derived(it, st.v, IF IsContainer(st.v) THEN "unk" ELSE "fresh"))
               IN Run(fr.node.Update, inp, fr.env \o d.b, <<[k |-> "fe3", c |-> fr.c, node |-> fr.node, env |-> fr.env \o d.b]>> \o KK, S, f)
     [] fr.k = "fe3" ->         \* an output of the foreach update
          LET S1 == SSet(S, fr.c, it) IN
